@@ -16,6 +16,7 @@ LEVEL_TEXT = ("Static structural proof of necessary conditions: (R13.1) HedSchem
               "storing it; (R13.3) the duplicate-library refusal runs before any schema is loaded, the clashing-name "
               "refusal follows every merge, the duplicate-prefix refusal dominates the group table. Equivalence of "
               "prefixed and unprefixed judgement and 'standard is contained in partnered library' are NOT decided.")
+LEVEL_EXTRA = 'Added after the seeded evaluation: (R13.4) namespace prefixes removed by length, the per-entry prefix established afresh in each iteration; (R13.5) a value stored in a per-object cache of the schema classes depends only on arguments its key depends on.'
 
 SCHEMA_RECEIVERS = {"hed_schema", "_hed_schema", "_schema", "schema"}
 USER_PACKAGES = ("hed.validator", "hed.models", "hed.errors")
